@@ -9,9 +9,10 @@ void Exec::op_fill(const Op& op) {
   for (int i = 0; i < k; i++) { int s = s0 + i; if (s >= NSLOTS) break; one.set("s", std::to_string(s)); op_alloc(one); }
 }
 
-struct ThreadJob { std::vector<void*> ptrs; std::string f; size_t n = 0, k = 0, a = 0; bool is_alloc = false; int arena = -1; mi_arena_id_t arena_id; bool use_arena = false; };
+struct ThreadJob { mi_subproc_id_t subproc = nullptr; bool use_subproc = false; std::vector<void*> ptrs; std::string f; size_t n = 0, k = 0, a = 0; bool is_alloc = false; int arena = -1; mi_arena_id_t arena_id; bool use_arena = false; };
 static void* thread_main(void* arg) {
   ThreadJob* j = (ThreadJob*)arg;
+  if (j->use_subproc) mi_subproc_add_current_thread(j->subproc);   // first action of the thread, before any allocation
   if (j->is_alloc) {
     mi_heap_t* hp = nullptr;
     if (j->use_arena) hp = mi_heap_new_in_arena(j->arena_id);
@@ -49,6 +50,7 @@ void Exec::op_talloc(const Op& op) {
   int s0 = (int)op.num("s"), k = (int)op.num("k", 1); if (k > 1024) k = 1024;
   ThreadJob j; j.is_alloc = true; j.n = op.num("n"); j.k = (size_t)k; j.f = op.str("f", "malloc"); j.a = op.num("a", 0);
   if (op.has("ar")) { int ai = (int)op.num("ar"); if (ai < 0 || ai >= NARENAS || !m.arenas[ai].valid) return; j.use_arena = true; j.arena_id = m.arenas[ai].id; j.arena = ai; }
+  int spi = op.has("sp") ? (int)op.num("sp") : -1; if (spi >= 0) { if (spi > 1 || !m.subprocs[spi] || j.use_arena) return; j.use_subproc = true; j.subproc = m.subprocs[spi]; flag(F_SUBPROC); }
   if (j.a != 0 && (j.a & (j.a - 1)) != 0) return;
   run_thread(j); flag(F_TALLOC);
   for (int i = 0; i < k && i < (int)j.ptrs.size(); i++) {
@@ -57,7 +59,7 @@ void Exec::op_talloc(const Op& op) {
     if (!p) { count(C_NULLS); if (!allow_null && j.n <= MUST_SUCCEED_MAX && !j.use_arena) fail_now("null", "op#%ld helper thread: alloc(%zu) returned NULL", opi, j.n); continue; }
     if (m.slots[s].live) { mi_free(p); continue; }
     bool z = (j.f == "zalloc");
-    model_add(s, p, j.n, j.a > 16 ? j.a : 1, 0, j.use_arena ? -2 - j.arena : -1, z, "talloc"); m.slots[s].foreign = true;
+    model_add(s, p, j.n, j.a > 16 ? j.a : 1, 0, j.use_arena ? -2 - j.arena : (spi >= 0 ? -20 - spi : -1), z, "talloc"); m.slots[s].foreign = true;
     if (z) check_zeroed(p, 0, j.n, "talloc-zalloc");
     model_fill(s);
   }
@@ -174,6 +176,7 @@ void Exec::op_visit(const Op& op) {
       Blk& b = m.slots[found];
       if ((uintptr_t)b.p + b.u > hi && b.u > 0) fail_now("visit-enclose", "op#%ld visited range [%p,+%zu) does not enclose block %p usable %zu", opi, (void*)lo, v.s, b.p, b.u);
       if (b.home == h) { if (!matched.insert(found).second) fail_now("visit-twice", "op#%ld block %p visited twice", opi, b.p); }
+      else if (b.home <= -20) fail_now("cross-subproc-adoption", "op#%ld heap %d walk reported block %p that was left behind by a thread of another sub-process", opi, h, b.p);
       else if (b.home >= 1 && !forced_abandon) fail_now("visit-wrong-heap", "op#%ld heap %d walk reported block %p whose home is heap %d", opi, h, b.p, b.home);
       // home < 0: floating (abandoned / adopted) — allowed in a reclaiming heap
     } else {
@@ -205,7 +208,8 @@ void Exec::op_census(const Op& op) {
     VisitCtx c; c.heap = H.h; mi_heap_visit_blocks(H.h, true, &visit_cb, &c); for (auto& v : c.blocks) { all.push_back(v); from.push_back(h); } }
   bool with_abandoned = visit_abandoned_on;
   if (with_abandoned) { VisitCtx c; bool ok = mi_abandoned_visit_blocks(mi_subproc_main(), (int)op.snum("tag", -1), true, &visit_cb, &c); if (!ok) fail_now("avisit-ret", "op#%ld mi_abandoned_visit_blocks returned false although the visitor never did", opi);
-    for (auto& v : c.blocks) { all.push_back(v); from.push_back(0); } if (!c.blocks.empty()) flag(F_ABANDONED_VISIT); }
+    for (auto& v : c.blocks) { all.push_back(v); from.push_back(0); } if (!c.blocks.empty()) flag(F_ABANDONED_VISIT);
+    for (int sp = 0; sp < 2; sp++) if (m.subprocs[sp]) { VisitCtx c2; mi_abandoned_visit_blocks(m.subprocs[sp], -1, true, &visit_cb, &c2); for (auto& v : c2.blocks) { all.push_back(v); from.push_back(100 + sp); } } }
   flag(F_VISIT); count(C_VISITED_BLOCKS, all.size());
   std::set<int> matched; size_t descriptors = 0;
   for (size_t i = 0; i < all.size(); i++) {
@@ -216,10 +220,12 @@ void Exec::op_census(const Op& op) {
       Blk& b = m.slots[found];
       if ((uintptr_t)b.p + b.u > hi && b.u > 0) fail_now("census-enclose", "op#%ld visited range [%p,+%zu) does not enclose block %p usable %zu", opi, (void*)lo, all[i].s, b.p, b.u);
       if (!matched.insert(found).second) fail_now("census-twice", "op#%ld block %p reported twice (heap walks + abandoned walk)", opi, b.p);
+      if (b.home <= -20 && from[i] != -20 - b.home + 100 && from[i] >= 0) fail_now("cross-subproc-adoption", "op#%ld block %p of sub-process %d is reported by %s of the main sub-process", opi, b.p, -20 - b.home, from[i] ? "a heap walk" : "the abandoned walk");
       if (from[i] == 0 && b.home >= 1 && !forced_abandon && !b.stranded) fail_now("census-abandoned-owned", "op#%ld abandoned walk reported block %p whose home is heap %d of a live thread", opi, b.p, b.home);
-      if (from[i] >= 1 && b.home >= 1 && b.home != from[i] && !forced_abandon) fail_now("census-wrong-heap", "op#%ld heap %d walk reported block %p whose home is heap %d", opi, from[i], b.p, b.home);
+      if (from[i] >= 100 && b.home != -20 - (from[i] - 100)) fail_now("cross-subproc-adoption", "op#%ld the abandoned walk of sub-process %d reported block %p whose home is %d", opi, from[i] - 100, b.p, b.home);
+      if (from[i] >= 1 && from[i] < 100 && b.home >= 1 && b.home != from[i] && !forced_abandon) fail_now("census-wrong-heap", "op#%ld heap %d walk reported block %p whose home is heap %d", opi, from[i], b.p, b.home);
     } else {
-      bool desc = false; if (from[i] == 1 || forced_abandon) for (int g = 2; g < NHEAPS; g++) if (m.heaps[g].alive && (uintptr_t)m.heaps[g].h >= lo && (uintptr_t)m.heaps[g].h < hi) desc = true;
+      bool desc = false; if ((from[i] == 1 || forced_abandon) && from[i] < 100) for (int g = 2; g < NHEAPS; g++) if (m.heaps[g].alive && (uintptr_t)m.heaps[g].h >= lo && (uintptr_t)m.heaps[g].h < hi) desc = true;
       if (desc) descriptors++; else fail_now("census-phantom", "op#%ld %s walk reported [%p,+%zu) which is not a live block", opi, from[i] ? "heap" : "abandoned", (void*)lo, all[i].s);
     }
   }
